@@ -78,7 +78,7 @@ fn main() {
     let fam: Vec<Src> = sources::family();
     let sched_sources: Vec<usize> = args.tier.pick(vec![1], vec![0, 1, 2, 4]);
     let dmax = args.tier.pick(1, 2);
-    let sched_budget = args.tier.pick(20.0, 600.0);
+    let sched_budget = args.tier.pick(60.0, 600.0) * vcore::budget_scale();
     let (mut states, mut transitions, mut execs, mut complete) = (0usize, 0usize, 0usize, 0usize);
     let mut sched_plans = vec![];
     let mut samples = vec![];
@@ -148,10 +148,12 @@ fn main() {
     }
     let seeds: Vec<u64> = (0..args.tier.pick(3u64, 16)).map(|s| s + args.seed).collect();
     let threads: Vec<usize> = args.tier.pick(vec![1, 4], vec![1, 2, 3, 4, 8, 16]);
-    let mut cases: Vec<(String, PathBuf, Vec<String>)> = vec![];
+    // generated sources are tiny (30 ms a build) and made to collide: they get more seeds
+    let gen_seeds: Vec<u64> = (0..args.tier.pick(8u64, 32)).map(|s| s + args.seed).collect();
+    let mut cases: Vec<(String, PathBuf, Vec<String>, bool)> = vec![];
     for f in vcore::repo_fixtures() {
         let rel = f.strip_prefix(vcore::REPO).unwrap_or(&f).display().to_string();
-        cases.push((rel, f, vec![]));
+        cases.push((rel, f, vec![], false));
     }
     // generated sources, each under several option sets
     let optsets: Vec<fcx::Opts> = match args.tier {
@@ -173,19 +175,19 @@ fn main() {
             extra.extend(src.opts.cli_args());
             extra.sort();
             extra.dedup();
-            cases.push((format!("generated:{}:{}", src.name, o.name()), path.clone(), extra));
+            cases.push((format!("generated:{}:{}", src.name, o.name()), path.clone(), extra, true));
         }
     }
-    let builds_per_case = seeds.len() * threads.len();
-    let deadline = std::time::Instant::now() + std::time::Duration::from_secs_f64(args.tier.pick(45.0, 1200.0));
+    let deadline = std::time::Instant::now() + std::time::Duration::from_secs_f64(args.tier.pick(135.0, 1200.0) * vcore::budget_scale());
     let results = vcore::par_for(cases.len(), vcore::ncores(), |ci| {
-        let (name, path, extra) = &cases[ci];
+        let (name, path, extra, generated) = &cases[ci];
+        let seeds = if *generated { &gen_seeds } else { &seeds };
         if std::time::Instant::now() > deadline {
             return (name.clone(), None);
         }
         let out = sc.join(&format!("out{ci}.ttf"));
         let mut seen: BTreeMap<String, (u64, usize, Vec<u8>)> = BTreeMap::new();
-        for s in &seeds {
+        for s in seeds {
             for t in &threads {
                 let r = product_build(path, extra, *s, *t, &out);
                 let key = match &r {
@@ -199,7 +201,8 @@ fn main() {
         (name.clone(), Some(seen))
     });
     let (mut builds, mut sources_ok, mut sources_failing, mut skipped) = (0usize, 0usize, 0usize, 0usize);
-    for ((name, path, extra), (_, seen)) in cases.iter().zip(results) {
+    for ((name, path, extra, generated), (_, seen)) in cases.iter().zip(results) {
+        let builds_per_case = if *generated { gen_seeds.len() } else { seeds.len() } * threads.len();
         let Some(seen) = seen else {
             skipped += 1;
             exhaustive = false;
@@ -225,8 +228,8 @@ fn main() {
         );
     }
     if samples.len() < 8 {
-        for (name, _, extra) in cases.iter().take(2).chain(cases.iter().rev().take(2)) {
-            samples.push(json!({"dimension": "seeds x pool", "source": name, "args": extra, "seeds": seeds, "threads": threads}));
+        for (name, _, extra, generated) in cases.iter().take(2).chain(cases.iter().rev().take(2)) {
+            samples.push(json!({"dimension": "seeds x pool", "source": name, "args": extra, "seeds": if *generated { &gen_seeds } else { &seeds }, "threads": threads}));
         }
     }
     rep.set("states", states.max(1));
@@ -235,7 +238,7 @@ fn main() {
     rep.set("evaluations", execs + builds);
     rep.set("schedule_dimension", json!({"plans": sched_plans, "executions": execs, "fonts_compared": complete,
         "bound": "every schedule within d demotions of a strict-priority scheduler, both base orders, harvest mode: an execution that reaches an already expanded state is finished on the default schedule so that every explored prefix yields a font"}));
-    rep.set("seed_dimension", json!({"seeds": seeds, "pool_sizes": threads, "sources": cases.len(), "builds": builds,
+    rep.set("seed_dimension", json!({"seeds": seeds, "seeds_for_generated_sources": gen_seeds, "pool_sizes": threads, "sources": cases.len(), "builds": builds,
         "sources_stable_ok": sources_ok, "sources_stable_failing": sources_failing, "sources_skipped_deadline": skipped,
         "distinct_hash_orders_of_probe_set_over_8_seeds": orders.len(),
         "note": "pool sizes > 1 run the real rayon pool: schedules there are sampled (uncontrolled), the exhaustive schedule claim rests on the schedule dimension"}));
